@@ -585,7 +585,7 @@ package autodiff
 //@ end
 
 // composite operations (jet-level symbolic execution over the proved primitives)
-//@ for $R,$T in (Real64,@), (Real32,+)
+//@ for $R,$T in (Real64,@), (Real32,@)
 //@ propsdefault C01$T C02$T C08$T C09$T
 //@ func (*$R).Logistic
 //@   jetspec (1 / (((1 / exp(x)) + 1)))
@@ -644,7 +644,7 @@ package autodiff
 //@ end
 
 // the same composites on the plain float scalars (value only)
-//@ for $S,$T in (Float64,@), (Float32,+)
+//@ for $S,$T in (Float64,@), (Float32,@)
 //@ propsdefault C02$T C09$T
 //@ func ($S).Logistic
 //@   jetvalueonly
